@@ -172,6 +172,13 @@ func valueUniverse(r *rand.Rand, u *Universe, n int) []V {
 	seen := map[string]bool{}
 	var outv []V
 	for _, v := range vals {
+		// a string that begins with '$' is a field reference when it is handed to a criteria builder, which is how
+		// this universe is compared: inside containers such strings are data and stay
+		if v[0] == "str" {
+			if b := toBytes(v[1]); len(b) > 0 && b[0] == '$' {
+				continue
+			}
+		}
 		k := string(marshalLine(E{"v": v}))
 		if !seen[k] {
 			seen[k] = true
